@@ -373,3 +373,47 @@ Definition log_of (n : name) (l : list entry) : list entry :=
 Definition live (w : N) (c : cell) : option ent :=
   if w =? 0 then option_map i_ent (c_sup c)
   else match c_pipe c with Some i => Some (i_ent i) | None => option_map i_ent (c_gate c) end.
+
+(** *** a watcher that joins late (ObjectRegistry.NewWatcher on a non-empty registry)
+
+    NewWatcher holds the registry mutex from copying the entities to registering
+    the watcher: it is ONE atomic step.  Every snapshot is therefore either fully
+    before it (contained in the watcher's first event) or fully after it (delivered
+    as an event computed from applyConfig's deleted / created / updated maps). *)
+
+(** the three loops of one watcher at one key *)
+Definition watch_of (cats : list N) (d : trip) (x : option ent) : option ent * trip :=
+  let '(x1, e1) := match t_del d with
+                   | Some e => if wfilter cats e then (None, Some e) else (x, None)
+                   | None => (x, None) end in
+  let '(x2, e2) := match t_cre d with
+                   | Some e => if wfilter cats e then (Some e, Some e) else (x1, None)
+                   | None => (x1, None) end in
+  let '(x3, e3) := match t_upd d with
+                   | Some e => if wfilter cats e then (Some e, Some e) else (x2, None)
+                   | None => (x2, None) end in
+  (x3, {| t_del := e1; t_cre := e2; t_upd := e3 |}).
+
+
+(** first event / initial entities of a watcher with filter [cats] created in state [st] *)
+Definition join_view (cats : list N) (st : gstate) : name -> option ent :=
+  fun n => match c_reg (fst st n) with
+           | Some e => if wfilter cats e then Some e else None
+           | None => None
+           end.
+
+(** its entities and the event it is sent by the applyConfig that produced [st'] *)
+Definition late_next (cats : list N) (st' : gstate) (x : name -> option ent) : name -> option ent :=
+  fun n => fst (watch_of cats (c_diff (fst st' n)) (x n)).
+Definition late_event (cats : list N) (st' : gstate) (x : name -> option ent) : name -> trip :=
+  fun n => snd (watch_of cats (c_diff (fst st' n)) (x n)).
+
+(** the late watcher's entities after further snapshots *)
+Fixpoint late_run (q : quirks) (pan : oracle) (cats : list N) (t : N) (steps : list (sched * snapshot))
+         (st : gstate) (x : name -> option ent) : name -> option ent :=
+  match steps with
+  | [] => x
+  | (sc, cfg) :: r =>
+      let st' := step q pan t sc cfg st in
+      late_run q pan cats (t + 1) r st' (late_next cats st' x)
+  end.
